@@ -79,3 +79,28 @@ Example f5_bitfield_not_int : from_cbor types (fun _ => Raise Unsupported) 30 (T
 Proof. vm_compute. reflexivity. Qed.
 Example f5_unknown_key_no_embedded : from_cbor types (fun _ => Raise Unsupported) 30 (TRef (s2b "SuitCommon")) [161; 24; 99; 0] = Raise ValueError.
 Proof. vm_compute. reflexivity. Qed.
+
+(* F14 — the value-sharing / string-reference tags are refused by a scan of the item HEADS before the bytes reach the CBOR decoder
+   (SuitObject.reject_sharing_tags, model Cbor/TagScan.v, compared with the implementation on every input of the malformed
+   stream).  For every byte string the decoder model accepts — every head width, indefinite-length maps, trailing bytes — the scan
+   accepts exactly when the decoded item carries none of the tags 25 / 28 / 29 / 256 outside its byte strings; it is one pass over
+   the input (the length of the input is its fuel, one byte at least is consumed per round). *)
+From Verif Require Cbor.CodecFacts Cbor.TagScan Cbor.TagScanFacts.
+Theorem sharing_tags_rejected_before_decoding b c :
+  Cbor.CodecFacts.bytes_ok b -> loads b = Some c -> Cbor.TagScan.scan_tags b = negb (Cbor.TagScan.has_share c).
+Proof. exact (Cbor.TagScanFacts.scan_decides b c). Qed.
+Print Assumptions sharing_tags_rejected_before_decoding.
+
+(* non-vacuity: the F14 witness shape (shareable arrays with two references each, as a map KEY of the envelope), a tag number
+   written with a 2-byte argument, a tag-looking byte pair inside a byte string, an ordinary envelope *)
+Example scan_rejects_map_key_bomb :
+  Cbor.TagScan.scan_tags [216; 107; 161; 130; 216; 28; 129; 0; 216; 28; 130; 216; 29; 0; 216; 29; 0; 0] = false.
+Proof. vm_compute. reflexivity. Qed.
+Example scan_rejects_wide_tag_head : Cbor.TagScan.scan_tags [129; 217; 0; 29; 0] = false.
+Proof. vm_compute. reflexivity. Qed.
+Example scan_skips_string_content : Cbor.TagScan.scan_tags [216; 107; 161; 2; 68; 216; 28; 216; 29] = true.
+Proof. vm_compute. reflexivity. Qed.
+Example scan_decides_non_vacuous :
+  loads [216; 107; 161; 2; 216; 28; 129; 0] = Some (CTag 107 (CMap [(CUint 2, CTag 28 (CArray [CUint 0]))])) /\
+  Cbor.TagScan.scan_tags [216; 107; 161; 2; 216; 28; 129; 0] = false.
+Proof. vm_compute. split; reflexivity. Qed.
